@@ -60,8 +60,42 @@ def method_ast(fn):
     return ast.parse(src).body[0]
 
 
-def self_attrs_assigned(fnode, names=("self", "newone")):
-    """attributes X in `self.X = ...` / `newone.X = ...` (incl. augmented and tuple targets); None if the body leaves the fragment"""
+def receiver_names(fnode):
+    """the local names that hold the receiver or the copy being built: self, and every name bound to copy(self) / self / super().<m>(..) /
+    <receiver>.<m>(..) of the same method (a builder-decorated method works on the copy it is handed as self; an un-decorated override works on
+    what super() returned, whatever the local is called)"""
+    names = {"self"}
+    changed = True
+    while changed:
+        changed = False
+        for n in ast.walk(fnode):
+            if isinstance(n, ast.Assign) and len(n.targets) == 1 and isinstance(n.targets[0], ast.Name) and n.targets[0].id not in names:
+                v = n.value
+                ok = isinstance(v, ast.Name) and v.id in names
+                if isinstance(v, ast.Call):
+                    f = v.func
+                    if isinstance(f, ast.Name) and f.id in ("copy", "_shallow_copy") and v.args and isinstance(v.args[0], ast.Name) and v.args[0].id in names:
+                        ok = True
+                    if isinstance(f, ast.Attribute) and f.attr == "copy" and v.args and isinstance(v.args[0], ast.Name) and v.args[0].id in names:
+                        ok = True
+                    if isinstance(f, ast.Attribute) and isinstance(f.value, ast.Call) and isinstance(f.value.func, ast.Name) and f.value.func.id == "super":
+                        ok = True
+                if ok:
+                    names.add(n.targets[0].id)
+                    changed = True
+    return names
+
+
+def helper_calls(fnode):
+    """names h of methods called as <receiver>.h(...) in the body"""
+    names = receiver_names(fnode)
+    return {n.func.attr for n in ast.walk(fnode) if isinstance(n, ast.Call) and isinstance(n.func, ast.Attribute)
+            and isinstance(n.func.value, ast.Name) and n.func.value.id in names}
+
+
+def self_attrs_assigned(fnode, names=None):
+    """attributes X in `<receiver>.X = ...` (incl. augmented and tuple targets) and in-place edits of <receiver>.X"""
+    names = receiver_names(fnode) if names is None else names
     out = set()
     for n in ast.walk(fnode):
         targets = []
@@ -95,9 +129,13 @@ def calls_super(fnode, mname):
     return False
 
 
-def resolve(cls, mname, collect):
-    """attributes touched by cls.mname, following super() calls up the MRO"""
+def resolve(cls, mname, collect, _seen=None):
+    """attributes touched by cls.mname, following super() calls up the MRO and private helper methods called on the receiver"""
     out = set()
+    _seen = set() if _seen is None else _seen
+    if mname in _seen:
+        return out
+    _seen.add(mname)
     mro = [c for c in cls.__mro__ if mname in c.__dict__]
     for i, c in enumerate(mro):
         fn = c.__dict__[mname]
@@ -114,6 +152,13 @@ def resolve(cls, mname, collect):
         except (OSError, TypeError, SyntaxError):
             return None
         out |= collect(node)
+        # a method split into private helpers: what the helpers touch on the receiver counts as touched by the method
+        for h in sorted(helper_calls(node)):
+            if h != mname and h.startswith("_") and not h.startswith("__") and inspect.isfunction(inspect.getattr_static(cls, h, None)):
+                sub = resolve(cls, h, collect, _seen)
+                if sub is None:
+                    return None
+                out |= sub
         if not calls_super(node, mname):
             break
     return out
